@@ -302,6 +302,7 @@ def handle (op payload : String) : String :=
         let bit (v : Bool) : String := if v then "1" else "0"
         "declared=" ++ bit (Types.Ty.canBeDeclaredAs x y) ++ " conc=" ++ bit (Types.Ty.conc x y)
           ++ " coerce=" ++ bit (Types.Ty.coerceInto x y) ++ " coerceaddr=" ++ bit (Types.Ty.coerceAddressInto x y)
+          ++ " autoderef=" ++ bit (Types.Ty.autoderef x y)
       | _, _ => "bad-request"
     | _ => "bad-request"
   | "update" =>
